@@ -37,6 +37,8 @@ class ClientAuthenticator:
         self.unixFDSupport = self._usesUnixSocketTransport(self.protocol)
         self.guid = None
         self.cookie_dir = None  # used for testing only
+        # True between our NEGOTIATE_UNIX_FD and the server's answer to it
+        self.negotiatingUnixFD = False
 
         self.authOrder = self.preference[:]
         self.authOrder.reverse()
@@ -121,13 +123,15 @@ class ClientAuthenticator:
             raise DBusAuthenticationFailed('Invalid guid in OK message')
         else:
             if self.unixFDSupport:
+                self.negotiatingUnixFD = True
                 self.sendAuthMessage(b'NEGOTIATE_UNIX_FD')
             else:
                 self.sendAuthMessage(b'BEGIN')
                 self.authenticated = True
 
     def _auth_AGREE_UNIX_FD(self, line):
-        if self.unixFDSupport:
+        if self.unixFDSupport and self.negotiatingUnixFD:
+            self.negotiatingUnixFD = False
             self.sendAuthMessage(b'BEGIN')
             self.authenticated = True
         else:
@@ -172,6 +176,12 @@ class ClientAuthenticator:
                     b'ERROR ' + str(e).encode('unicode-escape'))
 
     def _auth_ERROR(self, line):
+        if self.negotiatingUnixFD:
+            # the server accepted us (OK) but cannot pass descriptors
+            self.negotiatingUnixFD = False
+            self.sendAuthMessage(b'BEGIN')
+            self.authenticated = True
+            return
         log.msg(
             'Authentication mechanism failed: '
             + line.decode("ascii", "replace")
